@@ -184,7 +184,7 @@ class IncrementalKSTest(BaseStatisticalTest):
         # Uses scipy code adaptation to calculate approximate p-value
         n, m = float(X_ref_num_samples), float(X_num_samples)
         en = n * m / (n + m)
-        p_value = kstwo.sf(statistic, np.round(en))[0]
+        p_value = kstwo.sf(statistic, np.round(en))
         return p_value
 
     @staticmethod
